@@ -449,6 +449,11 @@ func (lb *LoadBalancer) AddBackend(backendCfg config.BackendConfig) error {
 	// Create a reverse proxy for this backend with optimized transport
 	proxy := httputil.NewSingleHostReverseProxy(backendURL)
 
+	// Pass on every write at once: by default the reverse proxy only flushes
+	// streaming responses without a Content-Length, so bytes a backend flushed
+	// in a response of declared length would wait in the proxy's buffer.
+	proxy.FlushInterval = -1
+
 	// Configure custom transport with timeouts (LEETCODE-STYLE OPTIMIZATION!)
 	dialTimeout := time.Duration(lb.config.Server.Timeouts.BackendDial) * time.Second
 	if dialTimeout == 0 {
